@@ -270,6 +270,26 @@ def run(ctx):
                     o.undecided(f"size-limit test `{txt(conds[0][0])}` not recognised", fn, where)
 
     claimed_sets = [nm for nm, sites in sc.assigns.items() if len(sites) == 1 and txt(sites[0].value) in ("set()", "set([])")]
+    with ctx.obligation("C10.4", "every candidate clique is looked at: the acceptance loop is not left early") as o:
+        if accept is None:
+            o.undecided("acceptance loop not found", fn)
+        else:
+            par0 = astx.Parents(fn.node)
+            own = [n for n in ast.walk(accept) if isinstance(n, (ast.Break, ast.Return)) and par0.loops_of(n) and par0.loops_of(n)[0] is accept]
+            for j_ in own:
+                conds_ = rules.path_conditions(par0, j_, upto=accept)
+                ctext = " and ".join(txt(t_) if pol_ else f"not ({txt(t_)})" for t_, pol_ in conds_)
+                gtxt = g or "g"
+                none_left = [f"{gtxt}.number_of_edges() == 0", f"not {gtxt}.number_of_edges()", f"not {gtxt}.edges", f"not {gtxt}.edges()", f"{gtxt}.size() == 0",
+                             f"len({gtxt}.edges) == 0", f"len({gtxt}.edges()) == 0", f"{gtxt}.number_of_edges() < 1", f"not {gtxt}.size()"]
+                if len(conds_) == 1 and conds_[0][1] and txt(conds_[0][0]) in none_left:
+                    o.holds(fn, j_, f"the loop ends when the working copy has no edge left (`{ctext}`): no later clique could be accepted")
+                else:
+                    o.violated(fn, j_, f"the loop over the candidate cliques is left (`{type(j_).__name__.lower()}`) when `{ctext or 'always'}`: the cliques that come later in the order "
+                                       "(smaller ones, down to single edges) are never looked at, so their edges stay unlabelled", shape_free=True)
+            if not own:
+                o.holds(fn, accept, "no break / return belongs to the acceptance loop itself")
+
     with ctx.obligation("C10.4", "accept iff all pairs unclaimed, then claim all pairs of the same clique", floor=2) as o:
         if accept is not None and g is None and claimed_sets:
             _claimed_set_strategy(o, prog, fn, sc, par, accept, app, claimed_sets)
